@@ -89,8 +89,8 @@ func cmdLX(args []string) {
 		if hung == 1 || pan != "" || leak > 0 || strings.Join(got, "\x01") != strings.Join(want, "\x01") {
 			bad++
 			w.line(fmt.Sprintf(`{"in":%s,"want":%s,"got":%s,"panic":%s,"hung":%d,"leak":%d,"frame":%s}`, mustJSON(c["in"]), strsJSON(want), strsJSON(got), jq(pan), hung, leak, jq(frame)))
-			if hung == 1 {
-				break
+			if hung == 1 || bad >= 25 {
+				break // enough evidence; every further leaking case costs a settle loop
 			}
 		}
 	}
